@@ -126,7 +126,9 @@ def h12(E, M, case):
             # stop is certainly not answered
             leave_by = tf + (50 if mc else 0) + C
             ready = E.And(ready, ts > leave_by)
-            notready = E.Or(notready, ts < tf)
+            # the script delivers the stop first whenever ts <= tf: then the instance is
+            # stopped when the request arrives, also within the same tick / iteration
+            notready = E.Or(notready, ts <= tf)
         n = len(mine)
         if n:
             E.reach("h12.answered")
